@@ -400,6 +400,15 @@ def clientStart (u : UriView) (headers : HMap) : Except HsErr (VerifyData × Byt
       | .error e => .error e
       | .ok (req, key) => .ok ({ acceptKey := base64Encode (sha1 (key ++ wsGuidLit)), subprotocols := subs }, req)
 
+/-- `ClientHandshake::start` on a request object built by the caller: its method must be GET and
+its version at least HTTP/1.1, before anything else is looked at -/
+def clientStartChecked (methodIsGet versionAtLeast11 : Bool) (u : UriView) (headers : HMap) :
+    Except HsErr (VerifyData × Bytes) :=
+  if !methodIsGet then .error .wrongHttpMethod
+  else if !versionAtLeast11 then .error .wrongHttpVersion
+  else clientStart u hm
+where hm := headers
+
 /-- `Response::from_httparse` + `VerifyData::verify_response` -/
 def verifyResponse (v : VerifyData) (h : RawHead) (tail : Bytes) : Except HsErr Unit :=
   if h.version < 1 then .error .wrongHttpVersion
